@@ -176,7 +176,12 @@ def print_pat(p, rng, ctx=0, xmode=False, posix=False, defs=None):
         # adjacent plain characters: keep numeric escapes unambiguous by never
         # letting a hex/octal escape be followed directly by a digit-like char
         a = print_pat(p[1], rng, 1, xmode, posix, defs)
-        b = print_pat(p[2], rng, 2 if posix and p[2][0] in ('rep', 'repmin', 'reprange') else 1, xmode, posix, defs)
+        b = print_pat(p[2], rng, 1, xmode, posix, defs)
+        if posix and p[2][0] in ('rep', 'repmin', 'reprange'):
+            # POSIX / AT&T precedence: a counted repeat applies to the whole series before it, so as the right operand of a
+            # concatenation it needs parentheses of its own
+            b = "(" + print_pat(p[2], rng, 0, xmode, posix, defs) + ")"
+
         if a and b and a[-1] not in ")]\"}*+?." and _ends_numeric_escape(a) and b[0] in "0123456789abcdefABCDEF":
             b = "(" + b + ")"
         return wrap(a + b, 1)
